@@ -240,6 +240,19 @@ def gen_design(rng, size="small", trigger=None):
                     "lspell": (None if (same and rng.random() < 0.4) else spell(rng, libs[l2]["nm"]["id"])),
                     "props": gen_props(rng, 0.35, 3), "comments": gen_comments(rng, 0.05)})
         gen_nets(rng, cell, libs, S, trigger)
+        if trigger in ("inst_no_viewref", "viewref_no_cellref"):
+            # one more instance, after the nets were drawn (no net touches it): without any reference, or
+            # referencing the view of the cell it stands in
+            ci_self = len(libs[li]["cells"])
+            extra = {"nm": gen_nm(rng, {x["nm"]["id"].lower() for x in cell["insts"]},
+                                  {x["nm"]["orig"] or x["nm"]["id"] for x in cell["insts"]}),
+                     "vspell": spell(rng, cell["view"]["id"]), "cspell": cell["nm"]["id"], "lspell": None,
+                     "props": [], "comments": []}
+            if trigger == "inst_no_viewref":
+                extra.update(ref=None, noref=True)
+            else:
+                extra.update(ref=[li, ci_self], nocellref=True)
+            cell["insts"].append(extra)
         add(li, cell)
     for L in libs:
         del L["_ids"], L["_names"]
@@ -479,6 +492,10 @@ def cell_tree(kw, cell):
             if i["lspell"] is not None:
                 cref.append([kw("libraryref"), i["lspell"]])
             it = [kw("instance"), nm_tree(kw, i["nm"]), [kw("viewref"), i["vspell"], cref]]
+            if i.get("noref"):              # trigger inst_no_viewref: (instance name) without (viewRef ...)
+                it = [kw("instance"), nm_tree(kw, i["nm"])]
+            elif i.get("nocellref"):        # trigger viewref_no_cellref: (viewRef v) names the cell being read
+                it = [kw("instance"), nm_tree(kw, i["nm"]), [kw("viewref"), i["vspell"]]]
             it += [prop_tree(kw, x) for x in i["props"]]
             it += comment_trees(kw, i.get("comments", []))
             cont.append(it)
@@ -612,7 +629,7 @@ def denote(d):
                  "ports": [{"name": nm_pair(p["nm"]), "dir": DIRS[p["dir"]], "width": p["width"] or 1,
                             "array": p["width"] is not None, "props": [prop_den(x) for x in p.get("props", [])]}
                            for p in c["ports"]],
-                 "insts": [{"name": nm_pair(i["nm"]), "ref": list(i["ref"]), "props": [prop_den(x) for x in i["props"]]}
+                 "insts": [{"name": nm_pair(i["nm"]), "ref": (None if i["ref"] is None else list(i["ref"])), "props": [prop_den(x) for x in i["props"]]}
                            for i in c["insts"]],
                  "props": [prop_den(x) for x in c["props"]],
                  "cables": []}
@@ -803,7 +820,7 @@ def shrink_candidates(d):
                     [x for x in e["body"] if x["k"] == "lib"][li]["cells"][ci]["insts"][ii]["props"] = []
                     yield e
     # drop a cell nobody references (and that is not the design target)
-    refd = {tuple(i["ref"]) for c in _cells(d) for i in c["insts"]}
+    refd = {tuple(i["ref"]) for c in _cells(d) for i in c["insts"] if i["ref"] is not None}
     for it in d["body"]:
         if it["k"] == "design":
             refd.add(tuple(it["ref"]))
@@ -815,7 +832,7 @@ def shrink_candidates(d):
             del [x for x in e["body"] if x["k"] == "lib"][li]["cells"][ci]
 
             def fix(r):
-                if r[0] == li and r[1] > ci:
+                if r is not None and r[0] == li and r[1] > ci:
                     r[1] -= 1
             for c in _cells(e):
                 for i in c["insts"]:
